@@ -216,7 +216,7 @@ func runCheck(prop, tier string, repo, hdir string, jobs int, seed int64) int {
 		fmt.Fprintln(os.Stderr, err)
 		return 2
 	}
-	ld, err := interp.Load(repo, ov, "verif", "./...")
+	ld, err := interp.Load(repo, ov, "verif,purego", "./...")
 	if err != nil {
 		fmt.Fprintln(os.Stderr, "load failed:", err)
 		return 2
